@@ -83,8 +83,22 @@ pub fn replay_netterm(case: &Value, rep: &mut Report, rng: &mut Rng) {
     rep.checks += 1;
     let built = guarded(|| {
         let mut net = Network::new(shape_from(&case["input"]));
+        // under the second activation assignment every plain layer is created Linear and given its activation
+        // afterwards with set_activation: what forward and backward use is the activation the layer has NOW
+        let switched = case["acts"].as_u64() == Some(2);
         for it in items.iter() {
-            nets::add_layer(&mut net, &item_desc(it));
+            let mut d = item_desc(it);
+            if switched && str_of(it, "kind") != "fb" && d["kind"] != "pool" {
+                d["act"] = json!("linear");
+            }
+            nets::add_layer(&mut net, &d);
+        }
+        if switched {
+            for (i, it) in items.iter().enumerate() {
+                if str_of(it, "kind") != "fb" && str_of(&it["l"]["cfg"], "kind") != "pool" {
+                    net.set_activation(i, crate::layers::activation(str_of(&it["l"], "act")));
+                }
+            }
         }
         // additive skip connections <<target, source>> (1-based item indices)
         net.set_accumulation(nets::accumulation("add"), nets::accumulation("mean"));
